@@ -1,12 +1,13 @@
 import Dbg.Props.C10
 import Dbg.Lemmas.IterProofs
 import Dbg.Lemmas.SliceRefine
+import Dbg.Props.C17
 /-! # C13 — K-mer extraction agrees across all containers
 
 `KIter.Faithful v seq` says a container `v` stands for the base vector `seq`: it reports its length,
 reads every base, and `get_kmer(pos)` spells bases `pos..pos+K` (with the storage invariant of the k-mer
 type).  Every container is faithful (`C13_dnaString`, `C13_slice` in both orientations and at every
-offset, `C13_bytes`; `Lmer` in C17), for every k-mer configuration — so the theorems about faithful
+offset, `C13_bytes`, `C13_lmer` for every capacity), for every k-mer configuration — so the theorems about faithful
 containers (`C13_iter`, `C13_iter_exts`, `C13_term`) hold for all of them: the iterator yields exactly
 `max(0, n-K+1)` k-mers in order, the `i`-th spelling bases `i..i+K`, and the extension iterator pairs
 each with its true flanking bases, using the caller's boundary extensions only at the two ends.  The bulk
@@ -66,6 +67,10 @@ theorem C13_bytes (c : Cfg) (hc : c.WF) (bs : List Nat) (hb : ∀ b ∈ bs, b < 
   kmer := fun pos hp => by
     obtain ⟨s, e, t, i⟩ := C13_bytes_getKmer c hc bs pos hp hb
     exact ⟨s, e, i, t⟩
+
+/-- **C13 (Lmer)** of every capacity, under C17's invariant -/
+theorem C13_lmer (c : Cfg) (hc : c.WF) (l : Lmer.T) (h : Lmer.Inv l) : Faithful (ofLmer c l) (Lmer.toSeq l) :=
+  Lmer.C17_faithful c hc l h
 
 /-- **C13 (iterator).** For any faithful container: exactly `max(0, n-K+1)` items, in order, the
     `i`-th spelling bases `i..i+K`. -/
